@@ -112,6 +112,43 @@ fn sob(serial: u64) -> SignedObjectBuilder {
                              rsync("rsync://repo.example/m/ta.crl"), rsync("rsync://repo.example/m/ta.cer"), rsync("rsync://repo.example/m/obj"))
 }
 
+/// One certificate per combination of nothing / inherit / blocks in the three resource families (CA and EE): decoded, swept like
+/// every other decoded certificate, and converted to a ResourceSet - an error exactly when something is inherited, never a panic.
+fn run_certshape(ctx: &Ctx, c: &Value) -> Result<(), (String, String)> {
+    use rpki::repository::resources::ResourceSet;
+    let sh = &c["shape"];
+    for kind in ["ca", "ee"] {
+        let cert = guarded(|| {
+            let v = Validity::new(Time::utc(2024, 1, 1, 0, 0, 0), Time::utc(2034, 1, 1, 0, 0, 0));
+            let (key, ku) = if kind == "ca" { ("k1", KeyUsage::Ca) } else { ("e0", KeyUsage::Ee) };
+            let mut tbs = TbsCert::new(Serial::from(77u64), ctx.pki.pubkey("k0").to_subject_name(), v, None, ctx.pki.pubkey(key), ku, Overclaim::Refuse);
+            if kind == "ca" {
+                tbs.set_basic_ca(Some(true));
+                tbs.set_ca_repository(Some(rsync("rsync://repo.example/m/ca/")));
+                tbs.set_rpki_manifest(Some(rsync("rsync://repo.example/m/ca/ca.mft")));
+            } else {
+                tbs.set_signed_object(Some(rsync("rsync://repo.example/m/ca/x.roa")));
+            }
+            tbs.set_authority_key_identifier(Some(ctx.pki.pubkey("k0").key_identifier()));
+            tbs.set_crl_uri(Some(rsync("rsync://repo.example/m/ta.crl")));
+            tbs.set_ca_issuer(Some(rsync("rsync://repo.example/m/ta.cer")));
+            match sh["v4"].as_str().unwrap() { "inherit" => tbs.set_v4_resources(IpResources::inherit()), "blocks" => tbs.set_v4_resources(IpResources::blocks([IpBlock::from_v4_str("10.0.0.0/8").unwrap()].into_iter().collect::<IpBlocks>())), _ => {} }
+            match sh["v6"].as_str().unwrap() { "inherit" => tbs.set_v6_resources(IpResources::inherit()), "blocks" => tbs.set_v6_resources(IpResources::blocks([IpBlock::from_v6_str("2001:db8::/32").unwrap()].into_iter().collect::<IpBlocks>())), _ => {} }
+            match sh["asn"].as_str().unwrap() { "inherit" => tbs.set_as_resources(AsResources::inherit()), "blocks" => tbs.set_as_resources(AsResources::blocks([AsBlock::from((Asn::from_u32(64496), Asn::from_u32(64511)))].into_iter().collect::<AsBlocks>())), _ => {} }
+            tbs.into_cert(&ctx.pki.signer, &ctx.pki.key("k0")).map(|c| c.to_captured().into_bytes())
+        });
+        let bytes = match cert { Ok(Ok(b)) => b, _ => continue };   // (a shape the builder does not offer is not a decoded value)
+        let Ok(cert) = Cert::decode(bytes) else { continue };
+        match guarded(|| { let n = sweep_cert(&cert, ctx); (n, ResourceSet::try_from(&cert).is_ok()) }) {
+            Err(m) => return Err((format!("certshape:panic:{kind}"), format!("an accessor or conversion of a decoded {kind} certificate with resources {sh} panics: {m}"))),
+            Ok((_, ok)) => if ok != (c["converts"] == "ok") {
+                return Err(("beyond:certshape:converts".into(), format!("ResourceSet::try_from of a {kind} certificate with resources {sh} is ok = {ok}, specification {}", c["converts"])));
+            }
+        }
+    }
+    Ok(())
+}
+
 fn mk_cert(pki: &Pki, kind: &str, shape: usize) -> Cert {
     let v = Validity::new(Time::utc(2024, 1, 1, 0, 0, 0), Time::utc(2034, 1, 1, 0, 0, 0));
     let (key, ku) = match kind { "ta" => ("k0", KeyUsage::Ca), "ca" => ("k1", KeyUsage::Ca), _ => ("e0", KeyUsage::Ee) };
@@ -831,6 +868,13 @@ pub fn replay(args: &[String]) {
     for (i, c) in cases.iter().enumerate() {
         progress.store(i, Ordering::SeqCst);
         *stamp.lock().unwrap() = (Instant::now(), cpu_secs());
+        if c["op"] == "certshape" {
+            if let Err((k, m)) = run_certshape(&ctx, c) {
+                s.violation(&k, m, c.clone());
+            }
+            s.eval(Some(&format!("{c}")));
+            continue;
+        }
         if c["op"] == "capred" {
             if let Err((k, m)) = run_capred(&ctx, c, &mut s) {
                 s.violation(&k, m, c.clone());
